@@ -11,6 +11,10 @@ import (
 	"github.com/juev/hledger-lsp/internal/ast"
 )
 
+// maxNumberExponent bounds the decimal exponent of an amount (in either
+// direction); hledger itself stores at most 255 decimal places.
+const maxNumberExponent = 1000
+
 type ParseError struct {
 	Message string
 	Pos     Position
@@ -388,6 +392,12 @@ func (p *Parser) parseAmount() *ast.Amount {
 	qty, err := decimal.NewFromString(numberStr)
 	if err != nil {
 		p.error("invalid number: %s", p.current.Value)
+		return nil
+	}
+	// 1E999999999 is a valid decimal, but summing or printing it materialises an
+	// integer with a billion digits: balance checking and formatting would hang
+	if exp := qty.Exponent(); exp > maxNumberExponent || exp < -maxNumberExponent {
+		p.error("number out of range: %s", p.current.Value)
 		return nil
 	}
 	amount.Quantity = qty
